@@ -646,7 +646,29 @@ class FnFlow:
         if nid is not None:
             facts |= set(self.cfg.facts_at(nid))
         facts |= set(expr_guards(self.prog.parents, node))
-        # comprehension generator conditions for names bound by enclosing comprehension
+        # a nested function (closure) that does not escape runs only while its enclosing function is past the `def`: what held there about
+        # names bound once in the enclosing function (or its parameters) still holds inside the closure
+        outer = getattr(self.fn, "parent", None)
+        if outer is not None and isinstance(self.fn.node, (ast.FunctionDef, ast.AsyncFunctionDef)) and not getattr(self, "_in_outer", False):
+            refs = [n for n in ast.walk(outer.node) if isinstance(n, ast.Name) and n.id == self.fn.name and isinstance(n.ctx, ast.Load)]
+            only_called = bool(refs) and all(isinstance(self.prog.parents.get(id(r)), ast.Call) and self.prog.parents[id(r)].func is r for r in refs)
+            own_bound = set(self.fn.params()) | set(self.prog._all_local_defs(self.fn))
+            if only_called:
+                of = flow(self.prog, outer)
+                of._in_outer = True
+                try:
+                    inherited = of.facts_for(self.fn.node) | set(controlling_facts(self.prog.parents, self.fn.node))
+                finally:
+                    of._in_outer = False
+                for t, pol in inherited:
+                    try:
+                        nm = {x.id for x in ast.walk(ast.parse(t, mode="eval")) if isinstance(x, ast.Name)}
+                    except SyntaxError:
+                        continue
+                    if nm & own_bound:
+                        continue
+                    if all(len(self.prog.local_defs(outer, x)) <= 1 for x in nm):
+                        facts.add((t, pol))
         return facts
 
     def holds(self, node: ast.AST, text: str, pol: bool = True) -> bool:
